@@ -613,20 +613,46 @@ def __estimate_width(
     return size
 
 
+def __escape_positions(input_string: str) -> set[int]:
+    """All positions inside an escape sequence, where a string literal must not be split"""
+    inside: set[int] = set()
+    pos: int = 0
+    while pos < len(input_string):
+        if input_string[pos] == "\\":
+            end: int = pos + 2
+            following: str = input_string[pos + 1 : pos + 2]
+            if following == "x":
+                end = pos + 4
+            elif following == "u":
+                end = max(input_string.find("}", pos) + 1, end)
+            elif following.isdigit():
+                while end < pos + 4 and input_string[end : end + 1].isdigit():
+                    end += 1
+            inside.update(range(pos + 1, end))
+            pos = end
+        else:
+            pos += 1
+    return inside
+
+
 def __get_newline_pos(input_string: str, max_pos: int) -> int:
+    # always make progress, even if the indentation is wider than the line
+    max_pos = max(max_pos, 1)
     if len(input_string) < max_pos:
         return len(input_string)
+    forbidden: set[int] = __escape_positions(input_string)
     current_pos: int = max_pos
     while current_pos > 1:
         is_end: bool = current_pos == len(input_string)
+        # whitespace directly after the break would be swallowed by \z
         is_allowed: bool = is_end or not input_string[current_pos].isspace()
         is_word_break: bool = not input_string[current_pos - 1].isalnum()
-        if is_allowed and is_word_break:
+        if is_allowed and is_word_break and current_pos not in forbidden:
             return current_pos
         current_pos -= 1
     current_pos = max_pos
     while current_pos < len(input_string):
-        if not input_string[current_pos].isspace():
+        if not input_string[current_pos].isspace() and current_pos not in forbidden:
             return current_pos
         current_pos += 1
     return len(input_string)
